@@ -26,6 +26,6 @@ func init() {
 		if f == nil || f.Data["cause"] != cause.UnknownSetToList {
 			return false
 		}
-		return f.Kind == "apply-type" || f.Kind == "safe-conv-fails"
+		return f.Kind == "apply-type" || f.Kind == "safe-conv-fails" || f.Kind == "conv-panic"
 	})
 }
